@@ -4,6 +4,7 @@ from collections import OrderedDict
 from .. import errors as E, gram, peg
 from ..interp import Clo, Inconclusive, Interp, Policy, Tok
 from ..peg import diff, inter, union
+from ..wmodels import FnClass
 from .c18 import parser_wiring
 
 REPS = list(range(0, 256)) + list(range(0x100, 0x200))
@@ -15,7 +16,10 @@ def char_class(prog, clo, rep):
     unicode_pred = False
     for cp in REPS:
         it = Interp(prog, Policy())
-        r = it.call_closure(clo, [Tok("C", "x", cp, dom="char")])
+        if isinstance(clo, FnClass):
+            r = it.call_key(clo.key, [Tok("C", "x", cp, dom="char")])
+        else:
+            r = it.call_closure(clo, [Tok("C", "x", cp, dom="char")])
         if not isinstance(r, bool):
             raise Inconclusive("character class closure returned %r" % (r,))
         if any(e[0] == "unicode-pred" for e in it.events):
@@ -71,7 +75,7 @@ def build(prog, g, root="version", extra_chars="vV.-+"):
     preds["ref_alnum"] = alnum
     classes_cp = {}
     for clo in closures_in(g, root):
-        if isinstance(clo, Clo):
+        if isinstance(clo, (Clo, FnClass)):
             cps = char_class(prog, clo, REPS)
         else:                           # literal character set
             cps = set(clo.chars)
@@ -229,7 +233,7 @@ def ident_class(rep, prog, g):
         return
     for clo in clos:
         try:
-            cps = char_class(prog, clo, REPS) if isinstance(clo, Clo) else set(clo.chars)
+            cps = char_class(prog, clo, REPS) if isinstance(clo, (Clo, FnClass)) else set(clo.chars)
         except Inconclusive as e:
             rep.inconc("identifier class: " + e.reason, e.where)
             continue
@@ -315,25 +319,12 @@ def serde_delegation(ctx, rep):
     de = [k for k in prog.bodies if "Deserialize" in k and "Version" in k and k.endswith("::deserialize")]
     se = [k for k in prog.bodies if "Serialize" in k and "for Version" in k.replace("<Version as", "for Version") and k.endswith("::serialize")]
     se = [k for k in prog.bodies if k.endswith("::serialize") and "Version" in k]
-    ok_de = False
-    for k in de:
-        callees = [flow.callee_key(c) for bb in prog.bodies[k]["blocks"] for c in [flow.callee_of(bb["term"])] if c]
-        if any("core::str::<impl str>::parse" in c for c in callees):
-            ok_de = True
-    fs = prog.bodies.get("<Version as std::str::FromStr>::from_str")
-    if fs is not None:
-        callees = [flow.callee_key(c) for bb in fs["blocks"] for c in [flow.callee_of(bb["term"])] if c]
-        if "Version::parse" not in callees:
-            ok_de = False
+    ok_de = bool(de) and all(flow.delegates_to_parse(prog, k, "<Version as std::str::FromStr>::from_str", "Version::parse") for k in de)
     if ok_de:
         rep.ok("SERDE-VERSION")
     else:
         rep.fail("SERDE-VERSION", "Deserialize for Version|SERDE|delegation", "Deserialize does not go through str::parse / FromStr / Version::parse (found %s)" % de)
-    ok_se = False
-    for k in se:
-        callees = [flow.callee_key(c) for bb in prog.bodies[k]["blocks"] for c in [flow.callee_of(bb["term"])] if c]
-        if any("collect_str" in c for c in callees):
-            ok_se = True
+    ok_se = bool(se) and all(any("collect_str" in c for c in flow.reach_callees(prog, k)[0]) for k in se)
     if ok_se:
         rep.ok("SERDE-VERSION")
     else:
